@@ -1161,9 +1161,9 @@ def resolve_cnamedtuple_fieldnames(value):
 
 
 # Keys: classes/constructors
-# Values: a tuple of fieldnames is resolving them was successful.
-#         Otherwise, an exception that was raised when attempting
-#         to resolve the fieldnames.
+# Values: a tuple of fieldnames if resolving them was successful.
+#         A failure is not remembered: whether the repr of a value
+#         can be parsed depends on its elements, not only on its class.
 _cnamedtuple_fieldnames_by_class = WeakKeyDictionary()
 
 
@@ -1173,15 +1173,11 @@ _cnamedtuple_fieldnames_by_class = WeakKeyDictionary()
 def pretty_cnamedtuple(value, ctx, trailing_comment=None):
     cls = type(value)
     if cls not in _cnamedtuple_fieldnames_by_class:
-        try:
-            fieldnames = resolve_cnamedtuple_fieldnames(value)
-        except Exception as exc:
-            fieldnames = exc
-        _cnamedtuple_fieldnames_by_class[cls] = fieldnames
+        _cnamedtuple_fieldnames_by_class[cls] = (
+            resolve_cnamedtuple_fieldnames(value)
+        )
 
     fieldnames = _cnamedtuple_fieldnames_by_class[cls]
-    if isinstance(fieldnames, Exception):
-        raise fieldnames
 
     return pretty_call_alt(
         ctx,
